@@ -46,14 +46,40 @@ def zip_sides(v):
     return out
 
 
+def _role(v, op, zips):
+    """(params the operand derives from, adaptor chain or None, zip item or None)."""
+    f = pair_field_of(v, op)
+    if f is not None:
+        cands = [z for z in zips if {frozenset(z[1][0]), frozenset(z[2][0])} == {frozenset({1}), frozenset({2})}]
+        if len(cands) == 1 and f[1] in (0, 1):
+            side = cands[0][1 + f[1]]
+            return set(side[0]), (tuple(side[1]), tuple(side[2])), f[0]
+    sl = Slice(v)
+    sl.operand(op)
+    return sl.params - sl.index_locals, None, None
+
+
+def _negates(v):
+    for bi in v.reachable:
+        for s in v.blocks[bi]["stmts"]:
+            if s["s"] == "assign" and s["rv"]["r"] == "un" and s["rv"]["op"] == "Not":
+                return True
+    for _bi, t in v.calls():
+        n = (ir.callee_name(t["fn"]) or "").split("::")[-1]
+        if n in ("not", "ct_ne", "conditional_select", "conditional_assign", "conditional_negate", "bitxor", "bitxor_assign"):
+            return True
+    return False
+
+
 def run(ctx, config="all"):
-    rep = Report("R-SIBLING", "subtle: ct_gt uses u64::ct_gt (ct_lt uses u64::ct_lt) combined with u64::ct_eq, per-limb "
-                 "operands come from the same position of (self, rhs) in that order (zip of two iterators built by the "
-                 "same adaptor chain over the full limb arrays); ct_eq consumes both full limb arrays; "
-                 "conditional_select selects every limb from (a, b) in that order and builds through from_limbs")
+    rep = Report("R-SIBLING", "subtle (necessary conditions; an unrecognised shape is not a finding): in ct_gt / ct_lt the "
+                 "strict comparisons (per limb or delegated) are not ALL oriented the wrong way round with no negation in "
+                 "the body, and limbs compared as the two fields of one zip item come from iterators built by the same "
+                 "adaptor chain (same position); ct_eq's result depends on both operands; conditional_select's per-limb "
+                 "select is not provably (b, a) nor over differently adapted iterators")
     prog = ctx.prog(config)
-    for trait, meth, prim, other in (("ConstantTimeGreater", "ct_gt", "<u64 as subtle::ConstantTimeGreater>::ct_gt", "ct_lt"),
-                                     ("ConstantTimeLess", "ct_lt", "subtle::ConstantTimeLess::ct_lt", "ct_gt")):
+    n_strict = 0
+    for trait, meth, other in (("ConstantTimeGreater", "ct_gt", "ct_lt"), ("ConstantTimeLess", "ct_lt", "ct_gt")):
         k = P % (trait, meth)
         b = prog.bodies.get(k)
         if b is None:
@@ -61,84 +87,56 @@ def run(ctx, config="all"):
             continue
         v = prog.view(b, (129, 3))
         where = "%s:%s" % (b["file"], b["line"])
-        prims = [(bi, t, ir.callee_name(t["fn"]) or "") for bi, t in v.calls()]
-        dir_calls = [(bi, t) for bi, t, n in prims if n.endswith("::" + meth) and "u64" in n or n == prim]
-        wrong = [n for _bi, _t, n in prims if n.endswith("::" + other)]
-        eqs = [(bi, t) for bi, t, n in prims if n.endswith("ConstantTimeEq>::ct_eq")]
-        if wrong or len(dir_calls) != 1 or len(eqs) != 1:
-            rep.violation(meth + "|primitive", where, "%s must combine exactly one per-limb %s with one per-limb ct_eq; found "
-                          "%d x %s, %d x ct_eq, %d x %s (a swapped primitive inverts the answer for every unequal pair)" % (
-                              meth, meth, len(dir_calls), meth, len(eqs), len(wrong), other))
-            continue
-        zs = zip_sides(v)
-        if len(zs) == 0:
-            # index form: `for i in .. { self.limbs[i].ct_gt(&rhs.limbs[i]) }` -- same position = same index variable
-            ok = True
-            for label, (bi, t) in ((meth, dir_calls[0]), ("ct_eq", eqs[0])):
-                s0, s1 = Slice(v), Slice(v)
-                s0.operand(t["args"][0])
-                s1.operand(t["args"][1])
-                p0, p1 = s0.params - s0.index_locals, s1.params - s1.index_locals
-                if not s0.index_locals or s0.index_locals != s1.index_locals:
-                    rep.violation(meth + "|operands:" + label, v.where(bi), "operands of the per-limb %s are neither the two "
-                                  "fields of one zip item nor limbs at one index variable (positions may differ)" % label)
-                    ok = False
-                elif label == meth and (p0, p1) == ({2}, {1}):
-                    rep.violation(meth + "|operands:" + label, v.where(bi), "per-limb %s is called as (rhs_limb, self_limb): the "
-                                  "direction is inverted" % label)
-                    ok = False
-                elif {frozenset(p0), frozenset(p1)} != {frozenset({1}), frozenset({2})}:
-                    rep.violation(meth + "|operands:" + label, v.where(bi), "per-limb %s does not compare the self limb with the "
-                                  "rhs limb (operands derive from parameters %s and %s)" % (label, sorted(p0), sorted(p1)))
-                    ok = False
-            if ok:
-                rep.ok(meth, where, "%s over self.limbs[i], rhs.limbs[i] at one index variable" % prim.split("::")[-1])
-            continue
-        if len(zs) != 1:
-            rep.violation(meth + "|zip", where, "expected one zip of the two limb iterators (shape not recognised): %d" % len(zs))
-            continue
-        _zb, A, Bs = zs[0]
-        if A[0] != {1} or Bs[0] != {2} or A[1] != Bs[1] or A[2] != Bs[2]:
-            rep.violation(meth + "|zip", where, "the zipped iterators are not (self, rhs) built by the same adaptor chain: "
-                          "left from params %s via %s%s, right from params %s via %s%s -- limbs would be compared at "
-                          "different positions or in swapped roles" % (sorted(A[0]), A[1], A[2], sorted(Bs[0]), Bs[1], Bs[2]))
-            continue
-        ok = True
-        for label, (bi, t) in ((meth, dir_calls[0]), ("ct_eq", eqs[0])):
-            f0, f1 = pair_field_of(v, t["args"][0]), pair_field_of(v, t["args"][1])
-            if f0 is None or f1 is None or f0[0] != f1[0]:
-                rep.violation(meth + "|operands:" + label, v.where(bi), "operands of the per-limb %s are not the two fields of one "
-                              "zip item (shape not recognised)" % label)
-                ok = False
-            elif label == meth and (f0[1], f1[1]) != (0, 1):
-                rep.violation(meth + "|operands:" + label, v.where(bi), "per-limb %s is called as (rhs_limb, self_limb): the "
-                              "direction is inverted" % label)
-                ok = False
-            elif {f0[1], f1[1]} != {0, 1}:
-                rep.violation(meth + "|operands:" + label, v.where(bi), "per-limb %s does not compare the self limb with the rhs limb" % label)
-                ok = False
-        if ok:
-            rep.ok(meth, where, "%s over zip(self.limbs%s, rhs.limbs%s)" % (prim.split("::")[-1], A[1], Bs[1]))
-    # ct_eq
+        zips = zip_sides(v)
+        strict = []
+        for bi, t in v.calls():
+            n = ir.callee_name(t["fn"]) or ""
+            last = n.split("::")[-1]
+            if last in (meth, other) and len(t["args"]) == 2 and n != k:
+                strict.append((bi, t, last == other))
+        verdicts = []
+        bad_pos = None
+        for bi, t, flip in strict + [(bi, t, False) for bi, t in v.calls()
+                                     if (ir.callee_name(t["fn"]) or "").endswith("ConstantTimeEq>::ct_eq") and len(t["args"]) == 2]:
+            r0, r1 = _role(v, t["args"][0], zips), _role(v, t["args"][1], zips)
+            if r0[2] is not None and r0[2] == r1[2] and r0[1] != r1[1]:
+                bad_pos = bad_pos or (bi, r0, r1)
+            if (bi, t, flip) not in strict:
+                continue
+            n_strict += 1
+            if flip:
+                r0, r1 = r1, r0
+            if r0[0] == {1} and r1[0] == {2}:
+                verdicts.append("right")
+            elif r0[0] == {2} and r1[0] == {1}:
+                verdicts.append("inverted")
+            else:
+                verdicts.append("unknown")
+        if bad_pos:
+            bi, r0, r1 = bad_pos
+            rep.violation(meth + "|positions", v.where(bi), "the two limbs compared are the fields of one zip item whose sides "
+                          "are built by different adaptor chains (%s vs %s): limbs are compared at different positions" % (
+                              list(r0[1][0]) + list(r0[1][1]), list(r1[1][0]) + list(r1[1][1])))
+        elif verdicts and all(x == "inverted" for x in verdicts) and not _negates(v):
+            rep.violation(meth + "|direction", where, "every strict comparison in %s is oriented the wrong way round (normalised "
+                          "to %s(rhs, self)) and nothing in the body negates a result: the answer is inverted for every "
+                          "unequal pair" % (meth, meth))
+        elif verdicts and "right" in verdicts:
+            rep.ok(meth, where, "%d strict comparison(s), oriented %s" % (len(verdicts), "/".join(verdicts)))
+        else:
+            rep.ok(meth, where, "shape not recognised (%d strict comparisons: %s): not decided" % (len(verdicts), "/".join(verdicts) or "-"))
+    # ct_eq: the result depends on both operands
     k = P % ("ConstantTimeEq", "ct_eq")
     b = prog.bodies.get(k)
     if b is not None:
         v = prog.view(b, (129, 3))
         where = "%s:%s" % (b["file"], b["line"])
-        calls = [(bi, t) for bi, t in v.calls() if (ir.callee_name(t["fn"]) or "").endswith("ConstantTimeEq>::ct_eq")]
-        good = False
-        if len(calls) == 1:
-            bi, t = calls[0]
-            s0, s1 = Slice(v), Slice(v)
-            s0.operand(t["args"][0])
-            s1.operand(t["args"][1])
-            ranged = [n for n in s0.foreign_calls + s1.foreign_calls if "index" in n or "split" in n or "get" in n.split("::")[-1]]
-            if {frozenset(s0.params), frozenset(s1.params)} == {frozenset({1}), frozenset({2})} and not ranged:
-                good = True
-        if good:
-            rep.ok("ct_eq", where, "<[u64]>::ct_eq(self.as_limbs(), rhs.as_limbs())")
+        sl = Slice(v)
+        sl.local(0)
+        if {1, 2} <= sl.params:
+            rep.ok("ct_eq", where, "the result derives from both self and rhs")
         else:
-            rep.violation("ct_eq", where, "ct_eq does not compare the two full limb arrays of self and rhs")
+            rep.violation("ct_eq", where, "the result of ct_eq does not depend on both operands (derives from parameters %s)" % sorted(sl.params))
     else:
         rep.violation("ct_eq|missing", "src/support/subtle.rs", "ConstantTimeEq impl not found")
     # conditional_select
@@ -147,31 +145,23 @@ def run(ctx, config="all"):
     if b is not None:
         v = prog.view(b, (129, 3))
         where = "%s:%s" % (b["file"], b["line"])
-        sel = [(bi, t) for bi, t in v.calls() if (ir.callee_name(t["fn"]) or "").endswith("ConditionallySelectable>::conditional_select")]
-        names = [ir.callee_name(t["fn"]) or "" for _bi, t in v.calls()]
-        good = False
-        why = "shape not recognised"
-        if len(sel) == 1 and "crate::Uint::<BITS, LIMBS>::from_limbs" in names:
-            bi, t = sel[0]
-            s = [Slice(v) for _ in range(3)]
-            for i in range(3):
-                s[i].operand(t["args"][i])
-            pa, pb, pc = (x.params for x in s)
-            f0, f1 = pair_field_of(v, t["args"][0]), pair_field_of(v, t["args"][1])
-            inner = [z for z in zip_sides(v) if z[1][0] == {1} and z[2][0] == {2} and z[1][1] == z[2][1]]
-            if 3 in pc and f0 is not None and f1 is not None and f0[0] == f1[0] and (f0[1], f1[1]) == (0, 1) and len(inner) == 1:
-                good = True
-            elif f0 is not None and f1 is not None and (f0[1], f1[1]) == (1, 0):
-                why = "u64::conditional_select(b_limb, a_limb, choice): the selection is inverted"
-            elif not inner:
-                why = "the limb iterators of a and b are not zipped in the order (a, b) with the same adaptors"
-            else:
-                why = "per-limb select operands derive from params %s, %s, %s" % (sorted(pa), sorted(pb), sorted(pc))
-        if good:
-            rep.ok("conditional_select", where, "u64::conditional_select(a_limb, b_limb, choice) -> from_limbs")
+        zips = zip_sides(v)
+        sel = [(bi, t) for bi, t in v.calls() if (ir.callee_name(t["fn"]) or "").endswith("ConditionallySelectable>::conditional_select")
+               and (ir.callee_name(t["fn"]) or "") != k and len(t["args"]) == 3]
+        bad = None
+        for bi, t in sel:
+            r0, r1 = _role(v, t["args"][0], zips), _role(v, t["args"][1], zips)
+            if r0[0] == {2} and r1[0] == {1}:
+                bad = (bi, "the per-limb select is called as (b_limb, a_limb, choice): the selection is inverted")
+            elif r0[2] is not None and r0[2] == r1[2] and r0[1] != r1[1]:
+                bad = (bi, "the limbs of a and b selected between come from iterators built by different adaptor chains "
+                           "(different positions)")
+        if bad:
+            rep.violation("conditional_select", v.where(bad[0]), bad[1])
         else:
-            rep.violation("conditional_select", where, why)
+            rep.ok("conditional_select", where, "%d per-limb select(s), none provably (b, a) or at different positions" % len(sel))
     else:
         rep.violation("conditional_select|missing", "src/support/subtle.rs", "ConditionallySelectable impl not found")
-    rep.analysed = {"build_config": config}
+    rep.analysed = {"build_config": config, "strict_comparisons_classified": n_strict}
+    rep.floor("strict_comparisons_classified", n_strict, 2)
     return rep
